@@ -135,13 +135,28 @@ def handler(site, ctx):
         raise SimFault(site)
 
 
+ORDER = [0]  # seed deciding the iteration order of the tiled-object set (0 = input order)
+
+
+def order_handler(name, items):
+    """The simulator, not object addresses, decides the hash-set iteration order."""
+    items = list(items)
+    if ORDER[0]:
+        import random
+
+        random.Random(ORDER[0]).shuffle(items)
+    return items
+
+
 def install():
-    """Install the handler if the tree under test has the guarded hooks (it need not)."""
+    """Install the handlers if the tree under test has the guarded hooks (it need not)."""
     try:
         from magpylib._src import _verif
     except ImportError:
         return False
     _verif.set_handler(handler)
+    if hasattr(_verif, "set_order_handler"):
+        _verif.set_order_handler(order_handler)
     return bool(getattr(_verif, "ENABLED", False))
 
 
@@ -153,3 +168,4 @@ def reset():
     RECORD[0] = False
     ARMED[0] = None
     INDEX_OF[0] = None
+    ORDER[0] = 0
